@@ -1786,6 +1786,22 @@ def run_c16(ctx):
         except Exception as e:  # noqa: BLE001
             ctx.violation("E4", f"explicit representation of a structured mesh raised {type(e).__name__}: {e}", canon)
             continue
+        # the cells of the structured mesh are the lattice cells (corner SETS computed here, x fastest), whatever direction is flat
+        ext_ = canon["extents"]
+        nx_, ny_ = ext_[0] + 1, ext_[1] + 1
+        pid_ = lambda i_, j_, k_: i_ + nx_ * (j_ + ny_ * k_)  # noqa: E731
+        lattice = set()
+        for k_ in range(max(ext_[2], 1)):
+            for j_ in range(max(ext_[1], 1)):
+                for i_ in range(max(ext_[0], 1)):
+                    lattice.add(frozenset(pid_(i_ + di, j_ + dj, k_ + dk) for di in range(2 if ext_[0] else 1)
+                                          for dj in range(2 if ext_[1] else 1) for dk in range(2 if ext_[2] else 1)))
+        got_cells = {frozenset(int(x) for x in row) for ct in a.cell_types for row in np.asarray(a.connectivity(ct))}
+        ctx.tie("T2 cells of a structured mesh = lattice cells (independent of the implementation)")
+        if got_cells != lattice:
+            ctx.violation("E4", f"the cells of the {canon['kind']} mesh with extents {ext_} are not the lattice cells "
+                                f"({len(got_cells ^ lattice)} corner sets differ)", canon)
+            continue
         ctx.tie("T2 default tolerances of a structured mesh = those of its explicit representation")
         if abs(tol_s - tol_e) > 1e-9 * max(tol_s, tol_e):
             ctx.violation("E4", f"default absolute tolerance of the {canon['kind']} mesh is {tol_s!r}, that of the explicit mesh with the "
@@ -1923,8 +1939,14 @@ def run_c16(ctx):
         i, d = rng.choice(cand)
         N = G.copy_mesh(M)
         N["pts"][i][d] = M["pts"][i][d] * (1 + Fr(1, 2 ** 30))          # relative deviation ~ 9e-10: below the default 1e-8
-        rel_set, abs_set = rng.choice([(0.0, 0.0), (0.0, 1e-300), (1e-12, 0.0), (None, None), (1e-6, 0.0)])
-        view = rng.random() < 0.6 and PermutedMesh is not None
+        rel_set, abs_set = rng.choice([(0.0, 0.0), (0.0, 1e-300), (1e-12, 0.0), (None, None), (1e-6, 0.0), (0.0, "loose")])
+        loose = abs_set == "loose"
+        if loose:
+            # a generous absolute tolerance on ONE mesh only, the deviation between the two meshes' tolerances: the stricter
+            # mesh decides, whichever of the two is asked
+            N["pts"][i][d] = M["pts"][i][d] * (1 + Fr(1, 2 ** 16))          # relative deviation 1.5e-5
+            abs_set = float(abs(M["pts"][i][d])) * 1e-2
+        view = rng.random() < 0.6 and PermutedMesh is not None and not loose     # (a view answers with its own tolerances only)
         canon = {"a": json_mesh(M), "b": json_mesh(N), "kind": "user tolerances", "rel_tol": rel_set, "abs_tol": abs_set, "on_view": view,
                  "moved": [i, d]}
         try:
@@ -1936,13 +1958,20 @@ def run_c16(ctx):
                 if rel_set is not None:
                     a.set_tolerances(abs_tol=abs_set, rel_tol=rel_set)
                 got = bool(a.equals(b))
+                got_back = bool(b.equals(a))
                 seen = (float(a.relative_tolerance), float(a.absolute_tolerance)) if rel_set is not None else None
         except Exception as e:  # noqa: BLE001
             ctx.violation("E4", f"equals with user tolerances raised {type(e).__name__}: {e}", canon)
             continue
         # statement: |x - y| <= max(rel * max(|x|,|y|), abs) entry by entry, with the receiver's tolerances
         x, y = abs(M["pts"][i][d]), abs(N["pts"][i][d])
-        if rel_set is None:
+        if loose:
+            want = None
+            if got or got_back:
+                ctx.violation("E4", f"a coordinate differs by 1.5e-5 relative; the mesh with the default tolerances does not accept that, the one "
+                                    f"with abs_tol={abs_set:g} would: equals answers {got} / {got_back} (asked the other way round) — the stricter "
+                                    "tolerance has to decide in both directions", canon)
+        elif rel_set is None:
             want = None                     # defaults: covered by stream (1)
         else:
             want = abs(y - x) <= max(Fr(rel_set) * max(x, y), Fr(abs_set))
@@ -2101,8 +2130,16 @@ def run_c17(ctx):
             # the low-dimensional data set stores its vector / tensor fields with three components already (as VTK files do):
             # only the coordinates need matching, the fields must be left as they are
             P0 = pad_mesh(M)
+            # ... and their third components are not zero (a velocity out of the plane): the same values on both sides
+            for row in P0["pf"].get("v", []):
+                row[2] = Fr(rng.randrange(1, 40, 2), 8)
+            for per in [P0["cf"].get("cv", {})]:
+                for t in per:
+                    for row in per[t]:
+                        row[2] = Fr(rng.randrange(1, 40, 2), 8)
             M = dict(G.copy_mesh(M), pf=P0["pf"], cf=P0["cf"])
             M["fields_stored_3d"] = True
+            P = dict(P, pf=G.copy_mesh(P0)["pf"], cf=G.copy_mesh(P0)["cf"])
         variant = rng.choice(["zero", "zero", "zero", "coord", "vector", "tensor"])
         tol = G.dyadic_tol(M)
         site = None
